@@ -8,7 +8,10 @@
       already present, if another thread inserted an equal name in between) and the CALLER'S OWN
       name is returned.  [Name] is an [Arc<str>]; [Eq]/[Hash]/[Ord] look at the text only.  A name
       is therefore a pair (content, allocation id) and every comparison uses the content.
-    - src/layer.rs, [Layer::load_impl]: one task per entry of [contents] (a [BTreeMap], so the keys
+    - src/layer.rs, [Layer::load_impl]: first, sequentially and in key order, every value of
+      [contents] must be a plain file name ([plain_name]) that no earlier entry uses (exact
+      comparison), else the load is refused ([InvalidGlyphFileName] / [DuplicateGlyphFileName]).
+      Then one task per entry of [contents] (a [BTreeMap], so the keys
       are pairwise distinct by content): intern the key; read and parse the glif, which interns
       the glif's own [name] attribute and then every component [base] in document order
       (src/glyph/parse.rs [start], [parse_component]); on success overwrite [glyph.name] with the
@@ -144,6 +147,7 @@ Fixpoint om_insert {V} (k : str) (v : V) (m : omap V) : omap V :=
 Inductive outcome := TOk (payload : N) | TErr (e : N).
 Record task := mkTask {
   t_key : name;            (* the key of [contents] (allocated by the plist reader) *)
+  t_file : option str;     (* the value of [contents]: its plain file name, [None] if it is not one *)
   t_reqs : list name;      (* names interned while parsing the glif, in document order: the glif's own
                               [name] attribute first, then the component bases; for a failing glif
                               the ones interned before the failure *)
@@ -167,10 +171,10 @@ Fixpoint collect (rs : list (N + (name * glyph))) (acc : omap glyph) : N + omap 
   end.
 
 Definition results_of (st : mstate) (ts : list task) : list (N + (name * glyph)) :=
-  map (fun i => task_result (nth i ts (mkTask ([], 0%N) [] (TErr 0%N))) (got_of st i)) (m_done st).
+  map (fun i => task_result (nth i ts (mkTask ([], 0%N) None [] (TErr 0%N))) (got_of st i)) (m_done st).
 
 (** parallel: results in COMPLETION order *)
-Definition par_layer (sched : list nat) (s : nset) (ts : list task) : nset * (N + omap glyph) :=
+Definition par_glyphs (sched : list nat) (s : nset) (ts : list task) : nset * (N + omap glyph) :=
   let st := run sched s (map prog_of ts) in
   (m_set st, collect (results_of st ts) []).
 
@@ -185,7 +189,7 @@ Fixpoint seq_tasks (s : nset) (ts : list task) (acc : omap glyph) : nset * (N + 
       | inr (k, g) => seq_tasks s' r (om_insert (content k) g acc)
       end
   end.
-Definition seq_layer (s : nset) (ts : list task) : nset * (N + omap glyph) := seq_tasks s ts [].
+Definition seq_glyphs (s : nset) (ts : list task) : nset * (N + omap glyph) := seq_tasks s ts [].
 
 (** ** What is observable: contents, not allocations; Ok or Err, not which error *)
 Definition glyphC := (str * list str * N)%type.
@@ -207,9 +211,29 @@ Fixpoint collectC {V} (rs : list (option (str * V))) (acc : omap V) : option (om
   | None :: _ => None
   | Some (k, g) :: r => collectC r (om_insert k g acc)
   end.
-Definition spec_layer (ts : list task) : option (omap glyphC) := collectC (map task_spec ts) [].
+Definition spec_glyphs (ts : list task) : option (omap glyphC) := collectC (map task_spec ts) [].
 Definition task_ok (t : task) : bool := match t_out t with TOk _ => true | TErr _ => false end.
 Definition keys_of (ts : list task) : list str := map (fun t => content (t_key t)) ts.
+
+(** ** The whole of [Layer::load_impl]: the file-name check (sequential, in key order, in both
+    builds), then the glyphs *)
+Fixpoint files_ok (seen : list str) (ts : list task) : bool :=
+  match ts with
+  | [] => true
+  | t :: r => match t_file t with
+              | None => false                                   (* InvalidGlyphFileName *)
+              | Some f => if existsb (str_eqb f) seen then false (* DuplicateGlyphFileName *)
+                          else files_ok (f :: seen) r
+              end
+  end.
+Definition par_layer (sched : list nat) (s : nset) (ts : list task) : nset * (N + omap glyph) :=
+  if files_ok [] ts then par_glyphs sched s ts else (s, inl 2%N).
+Definition seq_layer (s : nset) (ts : list task) : nset * (N + omap glyph) :=
+  if files_ok [] ts then seq_glyphs s ts else (s, inl 2%N).
+Definition spec_layer (ts : list task) : option (omap glyphC) :=
+  if files_ok [] ts then spec_glyphs ts else None.
+Definition layer_ok (ts : list task) : bool := files_ok [] ts && forallb task_ok ts.
+Definition file_of (t : task) : str := match t_file t with Some f => f | None => [] end.
 
 (** ** The font: layers one after the other, the interner threaded through *)
 Definition layer_in := (str * list task)%type.        (* layer name, its tasks *)
@@ -270,6 +294,11 @@ Definition stask_spec (w : stask) : option (str * list N) :=
   match snd w with inr b => Some (fst w, b) | inl _ => None end.
 Definition spec_save (tree : omap (list N)) (ws : list stask) : option (omap (list N)) :=
   collectC (map stask_spec ws) tree.
+
+(** the save tasks of a layer that was loaded from [ts] (its [contents] is the loaded one): glyph
+    [k] goes to its file, with whatever bytes / error its encoding gives *)
+Definition save_tasks (enc : str -> N + list N) (ts : list task) : list stask :=
+  map (fun t => (file_of t, enc (content (t_key t)))) ts.
 
 (** all layers of a font, one after the other *)
 Fixpoint par_save_font (scheds : list (list nat)) (tree : omap (list N)) (ls : list (list stask))
